@@ -572,3 +572,43 @@ fn run_case<'a>(ctx: &'a Ctx, case: u64, acc: &'a mut Acc) -> CaseFut<'a> {
         acc.sample(json!({"pairs": pairs, "signing_requests": probes}));
     })
 }
+
+/// digest, signature and key import code replayed by the Miri crate (/verif/miri): returns (rows signed and verified,
+/// mutants refused, mutants accepted)
+pub fn miri_replay(seed: u64, count: usize) -> (usize, usize, usize) {
+    use rand::SeedableRng;
+    let mut rng = StdRng::seed_from_u64(seed);
+    let id = Identity::new(seed, 77);
+    let (mut rows, mut refused, mut accepted) = (0, 0, 0);
+    for _ in 0..count {
+        let mut a = rand_node(&mut rng);
+        if a.sign(&id.signing).is_err() || a.verify().is_err() {
+            continue;
+        }
+        rows += 1;
+        for (_, mut b) in node_candidates(&a, &mut rng) {
+            b._signature = a._signature.clone();
+            b.verifying_key = a.verifying_key.clone();
+            if !node_differs(&a, &b) {
+                continue;
+            }
+            if b.verify().is_ok() {
+                accepted += 1;
+            } else {
+                refused += 1;
+            }
+        }
+        // malformed keys and signatures
+        for k in [vec![], vec![1u8], vec![9u8; 33], vec![1u8; 200]] {
+            let mut b = a.clone();
+            b.verifying_key = k;
+            let _ = b.verify();
+        }
+        for sg in [vec![], vec![0u8; 63], vec![0u8; 65]] {
+            let mut b = a.clone();
+            b._signature = sg;
+            let _ = b.verify();
+        }
+    }
+    (rows, refused, accepted)
+}
